@@ -42,7 +42,7 @@ META["C20"] = {"files": ["cif.c", "cif.h"], "functions": ["cif_errlist (table)",
 
 # ------------------------------------------------------------------------------------------ C10
 def c10(tier):
-    K = 9 if tier == "quick" else 12
+    K = 8 if tier == "quick" else 12
     qs = []
     for mode in ("func", "safety"):
         qs.append(Q("C10_lex_K%d_%s" % (K, mode), "h10_lex.c", defs={"KLEN": K}, extra=ICU, unwind=K + 2, mode=mode,
@@ -282,7 +282,47 @@ META["C07"] = {"files": ["value.c", "map.c", "internal/utils.h"], "functions": [
                "assumptions": ["malloc does not fail", "value-tree shape concrete per instance (enumerated), contents symbolic"],
                "outside": ["SQLite's own storage of the columns (UTF-16/UTF-8, numeric affinity)", "strings longer than the bound", "nesting deeper than the listed shapes"]}
 
-REG = {"C20": c20, "C10": c10, "C18": c18, "C09": c09, "C08": c08, "C14": c14, "C19": c19, "C07": c07}
+
+# ------------------------------------------------------------------------------------------ C17
+VF = {"malloc": "vf_malloc", "calloc": "vf_calloc", "realloc": "vf_realloc", "strdup": "vf_strdup"}
+
+
+def c17(tier):
+    qs = []
+    inst = [(1, {}), (4, {}), (5, {}), (8, {}), (9, {}), (10, {}), (11, {}), (12, {}), (14, {})]
+    inst += [(2, {"SHAPE": s}) for s in ((0, 4, 5) if tier == "quick" else (0, 1, 4, 5, 6))]
+    inst += [(3, {"SHAPE": s}) for s in ((4,) if tier == "quick" else (0, 4, 5))]
+    inst += [(6, {"LSZ": n}) for n in ((0, 4) if tier == "quick" else (0, 1, 4, 8))]
+    inst += [(7, {"KEYSEL": k}) for k in (0, 1)]
+    inst += [(13, {"SHAPE": s}) for s in (0, 4)]
+    SYMBOLIC_OK = {1, 4, 8, 11, 12, 13, 14}          # targets whose symbolic-ordinal query finishes (measured)
+    NSITES = {2: 10, 3: 10, 5: 5, 6: 6, 7: 10, 9: 14, 10: 10}   # upper bounds on allocation sites (EXPECT asserts vf_count < MAXALLOC)
+    for (t, extra) in inst:
+        fails = [None] if t in SYMBOLIC_OK else list(range(0, NSITES.get(t, 10) + 1))
+        for fa in fails:
+            d = {"TARGET": t, "MAXALLOC": 14}; d.update(extra)
+            if fa is not None:
+                d["FAILAT"] = fa
+                d["NSITES"] = NSITES.get(t, 10)
+            qs.append(Q("C17_alloc_T%d%s%s" % (t, "".join("_%s%s" % (k[0], v) for k, v in extra.items()), "" if fa is None else "_f%02d" % fa), "h17_alloc.c", defs=d,
+                        extra=ICU_NORM_CHEAP + ["stubs/alloc_fault.c"], libtus=["value.c", "map.c", "packet.c", "utils.c"], lib_defs=VF,
+                        unwind=7 if extra.get("LSZ", 0) >= 4 else 5, unwindset=[e.replace(":2", ":3") if extra.get("SHAPE") == 6 else e for e in VAL_REC] + ["memcmp.*:8", "memcpy.*:16", "strlen.*:8"], mode="safety",
+                        replay_libs=ICU_LIBS, native_extra=["stubs/icu_norm_cheap.c", "stubs/alloc_fault.c"], object_bits=10, group="h17_alloc",
+                        bounds={"call": {1: "cif_value_create(CHAR)", 2: "cif_value_clone -> new", 3: "cif_value_clone -> existing", 4: "cif_value_copy_char",
+                                         5: "cif_value_parse_numb", 6: "cif_value_insert_element_at", 7: "cif_value_set_item_by_key", 8: "cif_value_get_keys",
+                                         9: "cif_packet_create", 10: "cif_packet_set_item", 11: "cif_value_get_text", 12: "cif_normalize_name",
+                                         13: "cif_value_init(CHAR)", 14: "cif_u_strdup"}[t], "arguments": str(extra),
+                                "failing allocation": "symbolic ordinal 0 (none) .. 14" if fa is None else ("none" if fa == 0 else "allocation number %d" % fa)},
+                        note="one allocation failure" + (" at a symbolic site" if fa is None else " (site enumerated)")))
+    return qs
+
+
+META["C17"] = {"files": ["value.c", "map.c", "packet.c", "utils.c"], "functions": ["see queries[].bounds.call"],
+               "stubs": ["stubs/alloc_fault.c (malloc/calloc/realloc/strdup renamed in the library TUs; the k-th allocation fails)", "stubs/icu_str.c", "stubs/icu_norm_cheap.c", "stubs/uthash_model"],
+               "assumptions": ["exactly one allocation fails per call (or none)", "argument shapes concrete per instance, enumerated"],
+               "outside": ["allocations inside SQLite / ICU", "API functions backed by SQLite unless listed", "functions not listed in the queries"]}
+
+REG = {"C17": c17, "C20": c20, "C10": c10, "C18": c18, "C09": c09, "C08": c08, "C14": c14, "C19": c19, "C07": c07}
 
 
 def for_property(pid, tier):
@@ -352,3 +392,12 @@ MANI["C07"] = {
     "note": "NOT decided: the byte-level round trip of char/number/list/table values (kind and lengths read back from the byte image are "
             "symbolic to CBMC and the recursive deserialiser gives no verdict in 240 s even for one char value) and everything SQLite does "
             "with the columns; cif_value_clone deep copies are under C19"}
+
+MANI["C17"] = {
+    "text": "Bounded model checking with allocation-failure injection: the library TUs are compiled with malloc/calloc/realloc/strdup renamed to "
+            "a wrapper that fails exactly one allocation; for each listed API call the failing ordinal is symbolic (all sites at once) or, "
+            "where that gives no verdict, enumerated over every site (the no-failure instance asserts the enumeration covers all sites). "
+            "Asserted: error code, no leak / double free / invalid free (CBMC memory checks, confirmed natively under ASan+LSan), inputs "
+            "intact, target unchanged or valid, retry succeeds.",
+    "note": "value / list / table / packet / normalisation functions only (the calls named in evidence); SQLite-backed API functions and "
+            "allocations inside SQLite/ICU are outside; uthash = list model whose table-header allocation can fail like uthash's"}
